@@ -57,6 +57,8 @@ func checkC04(c *Ctx) {
 	c.checkGlobalTableReads("R04j")
 	r.Rule("R04k", "empty_behavior: every key written as null by the emitted encoder is mapped back by the emitted decoder, whatever the order of the settings", 14)
 	emptyBehaviorPairing(c, "R04k")
+	r.Rule("R04l", "bytes decoded by a child's own UnmarshalJSON are not decoded again by the final protojson decode (shared with C05/R05k)", 2)
+	customFormReachesProtojson(c, "R04l")
 
 	type siteAgg struct {
 		pos  string
